@@ -15,6 +15,8 @@ func main() {
 	switch os.Args[1] {
 	case "verify":
 		cmdVerify(os.Args[2:])
+	case "check":
+		cmdCheck(os.Args[2:])
 	default:
 		if f, ok := extraCmds[os.Args[1]]; ok {
 			f(os.Args[2:])
